@@ -306,6 +306,7 @@ def main(tier):
             V.add("spec:MC_Vector:" + str(mc["violated"]), {"trace": tlc.counterexample(mc["out"])})
         obs = common.pool_map(observe, cs, initfn=common.import_repo, hard_timeout=60,
                               on_timeout=lambda c: {"ar": c[1], "a": {"i": 0}, "b": {"i": 0}, "tab": [], "res": {"i": 0}, "err": ""})
+        common.retry_hangs(cs, obs, observe)      # a watchdog firing under load is re-observed alone, with longer alarms
         verdicts, st = tlc.validate(s, "Trace_Vector", obs, cfg="Trace_Vector.cfg", chunk=1500)
     tally = {}
     perkey = {}
